@@ -7,7 +7,7 @@ from engine.tlc import MachineryError
 
 MUTANTS = [("MUT_Lifecycle_shared_table.cfg", "OverridesRestored"), ("MUT_Lifecycle_backup_always.cfg", "OverridesRestored"),
            ("MUT_Lifecycle_restore_none_deletes.cfg", "OverridesRestored"), ("MUT_Lifecycle_pin_inherited.cfg", "OverridesRestored"),
-           ("MUT_Lifecycle_register_first_backup_only.cfg", "OverridesRestored"),
+           ("MUT_Lifecycle_register_first_backup_only.cfg", "OverridesRestored"), ("MUT_Lifecycle_register_after_fields.cfg", "OverridesRestored"),
            ("MUT_Lifecycle_error_active.cfg", "RightList"), ("MUT_Lifecycle_swallow.cfg", "RaisesToCaller")]
 
 
@@ -61,7 +61,7 @@ def run(prop, tier, seed, ctx):
     for m in mism:
         ctx.violation(key_of(m), "simulated behaviour, after step %d (%s) the real state differs from the specification in %s" % (
             m["step"], m["action"]["op"], m["fields"]), m)
-    for mcfg, inv in (MUTANTS if tier == "thorough" else MUTANTS[:5]):
+    for mcfg, inv in (MUTANTS if tier == "thorough" else MUTANTS[:6]):
         mres = tlc.run("Lifecycle", mcfg, workers=8, timeout=600)
         if inv not in mres.violated:
             raise MachineryError("mutant %s did not violate %s" % (mcfg, inv))
